@@ -203,7 +203,12 @@ static void c_try_refused_free(void)
      * queued than timed waits are in flight, an untimed one is queued and stays so */
     ABTI_cond *p_cond = ABTI_cond_get_ptr(C0);
     int queued = 0;
-    for (ABTI_thread *p = p_cond->waitlist.p_head; p; p = p->p_next)
+    /* (plain read of the lock byte, no hook point: somebody inside the cond's critical section — e.g. a timed-out waiter
+     * unlinking itself — may have the list half updated; with the lock free the list is consistent, and nothing runs
+     * between this test and the walk) */
+    if (*(volatile uint8_t *)&p_cond->lock.val.val)
+        return;
+    for (ABTI_thread *p = p_cond->waitlist.p_head; p && queued < 1000; p = p->p_next)
         queued++;
     if (c_nprod != 1 || queued <= c_timed_in)
         return;
